@@ -125,7 +125,8 @@ func (t *Trie[K, V]) Get(key K) (v V, ok bool) {
 		return v, false
 	}
 	x, err := t.root.get(key, 0)
-	if x == nil || err != nil {
+	// A node which only lies on the path of a longer key does not hold a key itself.
+	if x == nil || err != nil || !x.isValid {
 		return v, false
 	}
 
